@@ -9,7 +9,7 @@ package rockredis
 //@ property C12
 
 //@ spec be16(b []byte, p int) int = int(b[p])*256 + int(b[p+1])
-//@ spec eqAt(dst []byte, p int, src []byte) bool = forall i int :: 0 <= i && i < len(src) ==> dst[p+i] == src[i]
+//@ spec eqAt(dst []byte, p int, src []byte) bool = (forall i int :: p <= i && i < p+len(src) ==> dst[i] == src[i-p]) && (forall j int :: 0 <= j && j < len(src) ==> dst[p+j] == src[j])
 
 //@ func getDataTablePrefixBufLen(dataType byte, table []byte) int
 //@   ensures dataType == KVType ==> result == len(table) + 2
@@ -95,13 +95,136 @@ package rockredis
 //@   requires smallTK(table, key)
 //@   ensures isCollKey(result, HashType, table, key, field) && fresh(result)
 //@ func hDecodeHashKey(ek []byte) ([]byte, []byte, []byte, error)
-//@   requires len(ek) >= 1
-//@   requires len(ek) < 3 || be16(ek,1) + 3 < len(ek)
-//@   requires len(ek) < 6 + be16(ek,1) || be16(ek, 4+be16(ek,1)) + 6 + be16(ek,1) < len(ek)
+//@   requires collDecodeSafe(ek)
 //@   ensures result3 == nil ==> isCollKey(ek, HashType, result0, result1, result2)
+//@   ensures result3 == nil <==> collDecodeOK(ek, HashType)
 //@ func hEncodeStartKey(table []byte, key []byte) []byte
 //@   requires smallTK(table, key)
 //@   ensures isCollKey(result, HashType, table, key, nil) && fresh(result)
 //@ func hEncodeStopKey(table []byte, key []byte) []byte
 //@   requires smallTK(table, key)
 //@   ensures isCollStop(result, HashType, table, key) && fresh(result)
+
+// ---- lemmas: round trip (hence injectivity), range containment, range exactness ----
+//@ spec isPrefix(p []byte, b []byte) bool = len(p) <= len(b) && (forall i int :: 0 <= i && i < len(p) ==> b[i] == p[i])
+
+//@ lemma lemmaCollSubKeyRoundTrip(dt byte, table []byte, key []byte, sub []byte) (byte, []byte, []byte, []byte, error)
+//@   requires dt == HashType || dt == SetType || dt == ZSetType
+//@   requires smallTK(table, key)
+//@   ensures result4 == nil && result0 == dt && bytesEq(result1, table) && bytesEq(result2, key) && bytesEq(result3, sub)
+
+//@ lemma lemmaHashKeyRoundTrip(table []byte, key []byte, field []byte) ([]byte, []byte, []byte, error)
+//@   requires smallTK(table, key)
+//@   ensures result3 == nil && bytesEq(result0, table) && bytesEq(result1, key) && bytesEq(result2, field)
+
+//@ spec succLast(a []byte, b []byte) bool = len(a) >= 1 && len(b) == len(a) && b[len(a)-1] == a[len(a)-1] + 1 && (forall i int :: 0 <= i && i < len(a)-1 ==> b[i] == a[i])
+//@ spec lexLessAt(a []byte, b []byte, k int) bool = 0 <= k && k < len(a) && k < len(b) && a[k] < b[k] && (forall j int :: 0 <= j && j < k ==> a[j] == b[j])
+
+//@ lemma lemmaLexRangeCore(start []byte, stop []byte, x []byte)
+//@   requires succLast(start, stop)
+//@   ensures lexLE(start, x) && lexLess(x, stop) ==> isPrefix(start, x)
+//@ lemma lemmaLexPrefixLE(p []byte, b []byte)
+//@   requires isPrefix(p, b)
+//@   ensures lexLE(p, b)
+//@ lemma lemmaLexLessAt(a []byte, b []byte, k int)
+//@   requires lexLessAt(a, b, k)
+//@   ensures lexLess(a, b)
+
+//@ lemma lemmaCollShapeRange(start []byte, stop []byte, ek []byte, x []byte, dt byte, table []byte, key []byte, sub []byte)
+//@   requires isCollKey(start, dt, table, key, nil) && isCollStop(stop, dt, table, key) && isCollKey(ek, dt, table, key, sub)
+//@   ensures lexLE(start, ek) && lexLess(ek, stop)
+//@   ensures lexLE(start, x) && lexLess(x, stop) ==> isPrefix(start, x)
+
+//@ lemma lemmaHashRange(table []byte, key []byte, field []byte, x []byte) (start []byte, stop []byte, ek []byte)
+//@   requires smallTK(table, key)
+//@   ensures lexLE(start, ek) && lexLess(ek, stop)
+//@   ensures lexLE(start, x) && lexLess(x, stop) ==> isPrefix(start, x)
+
+// ---- set / zset member keys ----
+//@ spec collDecodeOK(ek []byte, dt byte) bool = ek[0] == dt && len(ek) >= 7+be16(ek,1) && ek[3+be16(ek,1)] == ':' && len(ek) >= 7+be16(ek,1)+be16(ek,4+be16(ek,1)) && ek[6+be16(ek,1)+be16(ek,4+be16(ek,1))] == ':'
+//@ spec collDecodeSafe(ek []byte) bool = len(ek) >= 1 && (len(ek) < 3 || be16(ek,1) + 3 < len(ek)) && (len(ek) < 6 + be16(ek,1) || be16(ek, 4+be16(ek,1)) + 6 + be16(ek,1) < len(ek))
+
+//@ func sEncodeSetKey(table []byte, key []byte, member []byte) []byte
+//@   requires smallTK(table, key)
+//@   ensures isCollKey(result, SetType, table, key, member) && fresh(result)
+//@ func sDecodeSetKey(ek []byte) ([]byte, []byte, []byte, error)
+//@   requires collDecodeSafe(ek)
+//@   ensures result3 == nil ==> isCollKey(ek, SetType, result0, result1, result2)
+//@   ensures result3 == nil <==> collDecodeOK(ek, SetType)
+//@ func sEncodeStartKey(table []byte, key []byte) []byte
+//@   requires smallTK(table, key)
+//@   ensures isCollKey(result, SetType, table, key, nil) && fresh(result)
+//@ func sEncodeStopKey(table []byte, key []byte) []byte
+//@   requires smallTK(table, key)
+//@   ensures isCollStop(result, SetType, table, key) && fresh(result)
+
+//@ func zEncodeSetKey(table []byte, key []byte, member []byte) []byte
+//@   requires smallTK(table, key)
+//@   ensures isCollKey(result, ZSetType, table, key, member) && fresh(result)
+//@ func zDecodeSetKey(ek []byte) ([]byte, []byte, []byte, error)
+//@   requires collDecodeSafe(ek)
+//@   ensures result3 == nil ==> isCollKey(ek, ZSetType, result0, result1, result2)
+//@   ensures result3 == nil <==> collDecodeOK(ek, ZSetType)
+//@ func zEncodeStartSetKey(table []byte, key []byte) []byte
+//@   requires smallTK(table, key)
+//@   ensures isCollKey(result, ZSetType, table, key, nil) && fresh(result)
+//@ func zEncodeStopSetKey(table []byte, key []byte) []byte
+//@   requires smallTK(table, key)
+//@   ensures isCollStop(result, ZSetType, table, key) && fresh(result)
+
+// ---- list element keys: [ListType][be16 len(table)][table]':'[be16 len(key)][key][be64 seq] ----
+//@ spec be64(b []byte, p int) int = int(b[p])*72057594037927936 + int(b[p+1])*281474976710656 + int(b[p+2])*1099511627776 + int(b[p+3])*4294967296 + int(b[p+4])*16777216 + int(b[p+5])*65536 + int(b[p+6])*256 + int(b[p+7])
+//@ spec isListKey(b []byte, table []byte, key []byte) bool = len(b) == 14+len(table)+len(key) && b[0] == ListType && be16(b,1) == len(table) && eqAt(b,3,table) && b[3+len(table)] == ':' && be16(b,4+len(table)) == len(key) && eqAt(b,6+len(table),key)
+//@ func lEncodeListKey(table []byte, key []byte, seq int64) []byte
+//@   requires smallTK(table, key)
+//@   ensures isListKey(result, table, key) && fresh(result)
+//@   ensures be64(result, 6+len(table)+len(key)) == uint64(seq)
+//@ func lDecodeListKey(ek []byte) (table []byte, key []byte, seq int64, err error)
+//@   requires len(ek) < 1 || ek[0] != ListType || len(ek) < 3 || be16(ek,1) + 3 < len(ek)
+//@   ensures err == nil <==> (len(ek) >= 6+be16(ek,1) && ek[0] == ListType && ek[3+be16(ek,1)] == ':' && len(ek) == 14+be16(ek,1)+be16(ek,4+be16(ek,1)))
+//@   ensures err == nil ==> isListKey(ek, table, key) && uint64(seq) == be64(ek, 6+len(table)+len(key))
+
+// ---- whole-table ranges ----
+//@ func encodeDataTableStart(dataType byte, table []byte) []byte
+//@   requires len(table) < 65536
+//@   ensures fresh(result) && result[0] == dataType
+//@   ensures dataType != KVType ==> len(result) == 4+len(table) && be16(result,1) == len(table) && eqAt(result,3,table) && result[3+len(table)] == ':'
+//@   ensures dataType == KVType ==> len(result) == 2+len(table) && eqAt(result,1,table) && result[1+len(table)] == ':'
+//@ func encodeDataTableEnd(dataType byte, table []byte) []byte
+//@   requires len(table) < 65536
+//@   ensures fresh(result) && result[0] == dataType
+//@   ensures dataType != KVType ==> len(result) == 4+len(table) && be16(result,1) == len(table) && eqAt(result,3,table) && result[3+len(table)] == ';'
+//@   ensures dataType == KVType ==> len(result) == 2+len(table) && eqAt(result,1,table) && result[1+len(table)] == ';'
+
+//@ func packRedisKey(table []byte, key []byte) []byte
+//@   ensures len(result) == len(table)+1+len(key) && eqAt(result,0,table) && result[len(table)] == ':' && eqAt(result,len(table)+1,key) && fresh(result)
+
+//@ lemma lemmaSetKeyRoundTrip(table []byte, key []byte, member []byte) ([]byte, []byte, []byte, error)
+//@   requires smallTK(table, key)
+//@   ensures result3 == nil && bytesEq(result0, table) && bytesEq(result1, key) && bytesEq(result2, member)
+//@ lemma lemmaZSetKeyRoundTrip(table []byte, key []byte, member []byte) ([]byte, []byte, []byte, error)
+//@   requires smallTK(table, key)
+//@   ensures result3 == nil && bytesEq(result0, table) && bytesEq(result1, key) && bytesEq(result2, member)
+//@ lemma lemmaListKeyRoundTrip(table []byte, key []byte, seq int64) (t []byte, k []byte, s int64, err error)
+//@   requires smallTK(table, key)
+//@   ensures err == nil && bytesEq(t, table) && bytesEq(k, key) && s == seq
+//@ lemma lemmaSetRange(table []byte, key []byte, member []byte, x []byte) (start []byte, stop []byte, ek []byte)
+//@   requires smallTK(table, key)
+//@   ensures lexLE(start, ek) && lexLess(ek, stop)
+//@   ensures lexLE(start, x) && lexLess(x, stop) ==> isPrefix(start, x)
+//@ lemma lemmaZSetRange(table []byte, key []byte, member []byte, x []byte) (start []byte, stop []byte, ek []byte)
+//@   requires smallTK(table, key)
+//@   ensures lexLE(start, ek) && lexLess(ek, stop)
+//@   ensures lexLE(start, x) && lexLess(x, stop) ==> isPrefix(start, x)
+//@ lemma lemmaTypeDisjoint(dt1 byte, dt2 byte, t1 []byte, k1 []byte, s1 []byte, t2 []byte, k2 []byte, s2 []byte) ([]byte, []byte)
+//@   requires dt1 == HashType || dt1 == SetType || dt1 == ZSetType
+//@   requires dt2 == HashType || dt2 == SetType || dt2 == ZSetType
+//@   requires smallTK(t1, k1) && smallTK(t2, k2) && dt1 != dt2
+//@   ensures !bytesEq(result0, result1)
+//@ lemma lemmaTableRange(dataType byte, table []byte, x []byte) (start []byte, stop []byte)
+//@   requires len(table) < 65536
+//@   ensures lexLE(start, x) && lexLess(x, stop) ==> isPrefix(start, x)
+//@ lemma lemmaTableRangeContainsColl(dt byte, table []byte, key []byte, sub []byte) (start []byte, stop []byte, ek []byte)
+//@   requires dt == HashType || dt == SetType || dt == ZSetType
+//@   requires smallTK(table, key)
+//@   ensures lexLE(start, ek) && lexLess(ek, stop)
